@@ -15,6 +15,7 @@ Oracle answers (one record per dispatched message) are RECORDED from the real ru
   ticket   wrapper around the harness' get_session_ticket_cb
   binder   inferred from the real outcome (AlertHandshakeFailure "PSK validation failed")  [circular for that field]
   load     x509.load_der_x509_certificate on the entries cut out of the message by the harness' own reader
+           (ValueError -> 0, x509.InvalidVersion -> 2; on a tree with fix-9 the model runs with patched = true for it: see `PATCHED`)
   pubkey   type of ctx._peer_certificate.public_key()
   sig      public_key.verify recomputed on the transcript snapshot taken before the message
   vcert    wrapper around tls.verify_certificate (alert class / escaping exception class)
@@ -27,7 +28,7 @@ import ssl
 from vlib import core  # noqa: F401
 
 EXN = {"AssertionError": 1, "IndexError": 2, "KeyError": 3, "UnicodeDecodeError": 4, "ValueError": 5, "TypeError": 6,
-       "AttributeError": 7, "CertificateError": 8}
+       "AttributeError": 7, "CertificateError": 8, "InvalidVersion": 10}
 
 CLIENT_STATES = [1, 2, 3, 4, 5, 6, 7]
 SERVER_STATES = [8, 9, 10, 11, 12]
@@ -314,6 +315,10 @@ def run_real(world, data):
                             x509.load_der_x509_certificate(d)
                         except ValueError:
                             r["load"] = 0
+                            break
+                        except x509.InvalidVersion:
+                            r["load"] = 2
+                            break
             if message_type == 15 and st in (5, 10) and ctx._peer_certificate is not None and len(msg) >= 8:
                 alg = int.from_bytes(msg[4:6], "big")
                 sig = msg[8:8 + int.from_bytes(msg[6:8], "big")]
@@ -400,12 +405,33 @@ def orc_tokens(records):
 
 
 _OBS = {}
+PATCHED = {}
+
+
+def tree_patched():
+    """1 if the tree turns x509.InvalidVersion into an alert (docs/C05-fix-9.patch), decided by running the T11 witness"""
+    if "v" not in PATCHED:
+        from cryptography.hazmat.primitives import serialization
+        w = World("client", "")
+        w.advance_to("client", 3)
+        der = certs("ec")[0].public_bytes(serialization.Encoding.DER).replace(b"\xa0\x03\x02\x01\x02", b"\xa0\x03\x02\x01\x12", 1)
+        msg = tls_msg(11, vec(1, b"") + vec(3, vec(3, der) + vec(2, b"")))
+        try:
+            w.subject.handle_message(msg, w.bufs["client"])
+            PATCHED["v"] = 0
+        except w.tls.Alert:
+            PATCHED["v"] = 1
+        except Exception:
+            PATCHED["v"] = 0
+    return PATCHED["v"]
+
+
 
 
 def observe(case):
     """-> (model tokens, expected output tokens, exception, world)"""
     key = (case["side"], case["variant"], case["state"], tuple(case.get("pre", ())), case["data"], case.get("genuine", 0),
-           tuple(case.get("gmut") or ()))
+           tuple(case.get("gmut") or ()), tuple(case.get("pre_fail", ())))
     if key in _OBS:
         return _OBS[key]
     w = World(case["side"], case["variant"])
@@ -428,9 +454,18 @@ def observe(case):
             break
         for b in w.bufs[w.side].values():
             b.seek(0)
+    for pf in case.get("pre_fail", ()):
+        # a chunk that is expected to end in an Alert; the Context is used again afterwards (tls.Context level only:
+        # since 54d8ff0 the connection never does this) -- ties the model's post-alert raise sites
+        try:
+            w.subject.handle_message(bytes.fromhex(pf), w.bufs[w.side])
+        except Exception:
+            pass
+        for b in w.bufs[w.side].values():
+            b.seek(0)
     snap = snapshot(w.subject)
     records, out, exc = run_real(w, data)
-    tokens = [0] + snap + orc_tokens(records) + _lst(data)
+    tokens = [tree_patched()] + snap + orc_tokens(records) + _lst(data)
     res = (tokens, out, exc, w)
     if len(_OBS) > 4000:
         _OBS.clear()
@@ -450,6 +485,8 @@ def oracle(case, exc_site):
     """the property on the implementation: only tls.Alert (documented description) or QuicConnectionError may leave"""
     from aioquic import tls
     _, out, exc, _ = observe(case)
+    if case.get("pre_fail"):
+        return None     # re-using a Context after it raised is not reachable through QuicConnection (judged there: sh-twice)
     if out[0] == 3:
         return ("%s escaped Context.handle_message at %s: %s [%s %s]" % (
             type(exc).__name__, exc_site(exc), str(exc)[:120], case["side"], STATE_NAMES.get(case["state"])),
@@ -698,6 +735,19 @@ def gen_cases(rng, n):
                     cases.append(dict(base, genuine=k, gmut=[rng.randrange(k), rng.randrange(1 << 30)], data=""))
                     t = rng.choice([4, 8, 11, 13, 15, 20])
                     cases.append(dict(base, genuine=k, data=other_grammar(rng, t).hex()))
+            # the Context used again after an alert (model's post-alert raise sites, e.g. _key_schedule_proxy is None)
+            if state in (1, 8) and gen:
+                if state == 1:
+                    head = b"\x03\x03" + bytes(32) + b"\x00" + b"\x13\x01" + b"\x00"
+                    for exts in (ext(43, b"\x03\x04"), ext(43, b"\x03\x04") + ext(51, b"\x12\x34" + vec(2, b"zz")),
+                                 ext(43, b"\x03\x04") + ext(51, b"\x00\x1d" + vec(2, bytes(32)))):
+                        bad = tls_msg(2, head + vec(2, exts))
+                        for nxt in (gen[0], bad):
+                            cases.append(dict(base, pre_fail=[bad.hex()], data=nxt.hex()))
+                for _ in range(max(2, per // 4)):
+                    bad = hello_grammar(rng, state == 8)
+                    nxt = rng.choice([gen[0], hello_grammar(rng, state == 8)])
+                    cases.append(dict(base, pre_fail=[bad.hex()], data=nxt.hex()))
             for d in out:
                 c = dict(base, data=d.hex())
                 cases.append(c)
